@@ -228,7 +228,9 @@ def paths_check(ctx, impl, names, jobs):
 VARIANTS = ["empty", "old", "stale", "tmplink", "finallink", "old+tmplink",
             # symlinks whose destination does not exist (os.path.exists follows links: False; islink: True), chains, loops,
             # and a directory squatting on the temporary name
-            "tmpdangling-out", "tmpdangling-in", "finaldangling", "tmpchain", "tmpchain-dangling", "tmploop", "tmpdir"]
+            "tmpdangling-out", "tmpdangling-in", "finaldangling", "tmpchain", "tmpchain-dangling", "tmploop", "tmpdir",
+            # the final name is an existing directory: rename(2) onto it fails after the upload was received completely
+            "finaldir", "finaldir+stale"]
 TMP_LINK_VARIANTS = ("tmplink", "tmpdangling", "tmpchain", "tmploop")
 OLD, STALE = b"OLD-CONTENT", b"STALE"
 LINK = "../sentinel/victim"
@@ -254,7 +256,11 @@ def prepopulate(target, comp, variant):
         link(LINK, final)
     if variant == "finaldangling":
         link(DANGLING_OUT, final)
-    if variant == "stale":
+    if "finaldir" in variant:
+        os.mkdir(final)
+        open(os.path.join(final, "inner"), "wb").write(b"INNER")
+        ents.append((final, ("D",)))
+    if "stale" in variant:
         open(tmp, "wb").write(STALE)
         ents.append((tmp, ("F", STALE)))
     if "tmplink" in variant:
@@ -297,6 +303,9 @@ def canon_ops(ops, arena):
     out = []
     for o in ops:
         k = KIND.get(o[0])
+        if o[0] == "open-failed":       # open() itself raised (EISDIR ...): the model's Open that sets `failed`
+            out.append((1, os.path.join(arena, o[1]), "", 0))
+            continue
         if k is None:
             out.append((o[0],))
             continue
@@ -354,6 +363,8 @@ def one_upload(ctx, impl, name, blocks, ending, variant, sig=None, src=None, col
         if inside1 != want:
             s = "oracle/upload-leftover" if any(k.endswith(".partial") for k in inside1) and inside1.get(comp) == inside0.get(comp) \
                 else "oracle/upload-partial-under-final-name"
+            if s == "oracle/upload-leftover" and inside0.get(comp) == ("d",) and ending == "done":
+                s = "oracle/upload-onto-directory-leaves-partial"
             ctx.fail(sig or s, "upload of %r ended with %s but the target directory changed: before %r after %r; operations %r"
                      % (name, out, inside0, inside1, rec.ops), replay=what)
     if collect is not None:
@@ -413,11 +424,6 @@ def upload_check(ctx, impl, names, jobs):
     cases = []
     # (a) every name once, on an empty directory, two blocks
     for n in names:
-        if posixpath.normpath(n) == impl.FURNITURE["sub"]:
-            # the final name is an existing DIRECTORY: rename(2) onto it fails and <name>.partial stays behind.  Reported to
-            # the lead as a defect of the unchanged tree (not listed yet); not exercised so that the clean tree stays silent.
-            ctx.hist("upload_skipped", "final-name-is-a-directory")
-            continue
         one_upload(ctx, impl, n, [b"da", b"ta"], "done", "empty", collect=cases)
         ctx.case(["upload", n, "done"], nontrivial=not plain(n))
         ending = ("badblock", 1, impl.BAD_BLOCK_KINDS[len(cases) % len(impl.BAD_BLOCK_KINDS)])
@@ -475,7 +481,6 @@ UPLOAD_OBS = """Definition obs (c : str * str * list (list N) * outcome * (list 
   | Some final =>
     let ops := upload_ops final blocks oc in
     let s := run s0 ops in
-    if failed s then [[2%N]] else
     [[1%N]] ++ flat_map enc_op (effective s0 ops) ++
     [[100%N]; code_view (look s final); code_view (look s (final ++ putfile_tmp_ext)); [b2n (failed s); b2n (followed s)]] ++
     (if with_crash then [101%N] :: crash_views s0 ops final else [])
@@ -499,10 +504,10 @@ def upload_correspond(ctx, cases, jobs):
                                                            "true" if "crash_views" in c else "false"))
             if c["out"] in ("raise:InsecurePath", "raise:BadFilenameError") and not c["ops"]:
                 exp.append([[0]])
-            elif c["out"] == "raise:IsADirectoryError" and [o[0] for o in c["ops"]] == ["open-failed"]:
-                exp.append([[2]])       # open() raised: the model's `failed`
             else:
-                e = [[1]] + enc_ops(c["ops"]) + [[100], c["final_view"], c["tmp_view"], [0, 0]]
+                # an os-level operation raised (open on a directory, rename onto a directory): the model's `failed`
+                raised = c["out"] == "raise:IsADirectoryError" or (c["ending"] == "done" and c["out"].startswith("fail:"))
+                e = [[1]] + enc_ops(c["ops"]) + [[100], c["final_view"], c["tmp_view"], [1 if raised else 0, 0]]
                 if "crash_views" in c:
                     e += [[101]] + c["crash_views"]
                 exp.append(e)
